@@ -18,7 +18,7 @@ import (
 // Filter, Append, Concat, Sort, Distinct, PushHead/PushLast, Take/Skip … are not.  Exceptions are a frozen table.
 
 var orderExceptions = map[string]string{
-	"fcToType|FuncType.Targets":                "the type of a partial application is the function type without the parameters already supplied: a suffix of the target list, in order",
+	"fcToType|FuncType.Targets":                 "the type of a partial application is the function type without the parameters already supplied: a suffix of the target list, in order",
 	"parseFieldInitializers|fiListInfo.NePairs": "parser: the list is built in source order by consing the current initialiser onto the result of the recursive call",
 	"newRecTypeWith|RecordTypeInfo.Fields":      "the field names of the old record zipped with the already translated field types handed in by the caller; every call site must pass an element-wise image of the same Fields (checked below)",
 }
@@ -154,7 +154,6 @@ func checkListOrder(c *Ctx, rule string, f *FC) {
 	_ = strings.TrimSpace
 }
 
-
 func sortedKeysAny[V any](m map[string]V) []string {
 	var ks []string
 	for k := range m {
@@ -163,7 +162,6 @@ func sortedKeysAny[V any](m map[string]V) []string {
 	sortStrings(ks)
 	return ks
 }
-
 
 // imageOfParam: the index of the parameter of which t is an element-wise image (Map/Mapi/Zip), or -1.
 func imageOfParam(f *FC, t ir.Term) int {
